@@ -67,14 +67,16 @@ def procClass (w : WorkerSt) (p : Pid) (x : Proc) : String :=
     | some .err => "failed"
     | none => "limbo"
 
-def showProc (w : WorkerSt) (p : Pid) : String :=
+def showProc (showUn : Bool) (w : WorkerSt) (p : Pid) : String :=
   match w.procs p with
   | none => s!"P{p}:missing"
   | some x =>
+    -- variant `selectWaits`: `SelectState.unanswered` of the current select
+    let un := if showUn && x.selInit then s!" un={showNats x.unanswered}" else ""
     let aw := (x.awaiting.mergeSort (fun a b => a.1 ≤ b.1)).map (fun kv =>
       toString kv.1 ++ (match kv.2 with | some v => "=" ++ showVal v | none => "=none"))
     let res := match x.result with | none => "none" | some r => showRes r
-    s!"P{p}:{procClass w p x} mb=[{joinWith "" (x.mailbox.map showMsg)}] aw=[{joinWith ";" aw}] af={showNats (sortNats x.awaitFailed)} sel={if x.selInit then 1 else 0} res={res}"
+    s!"P{p}:{procClass w p x} mb=[{joinWith "" (x.mailbox.map showMsg)}] aw=[{joinWith ";" aw}] af={showNats (sortNats x.awaitFailed)} sel={if x.selInit then 1 else 0}{un} res={res}"
 
 /-- `Worker.awaited` / `Worker.awaiters_for_target` (hooks `verif_awaited`, `verif_awaiters_for_target`) -/
 def showAwaitBook (w : WorkerSt) : String :=
@@ -82,9 +84,9 @@ def showAwaitBook (w : WorkerSt) : String :=
   let af := (ts.filter (fun t => !(w.awaitersFor t).isEmpty)).map (fun t => s!"{t}:{showNats (w.awaitersFor t)}")
   s!"AW={showNats ts} AF=[{joinWith " " af}]"
 
-def showWorker (s : Sys) (i : Wid) : String :=
+def showWorker (showUn : Bool) (s : Sys) (i : Wid) : String :=
   let w := s.wk i
-  let procs := (sortNats w.pids).map (showProc w)
+  let procs := (sortNats w.pids).map (showProc showUn w)
   s!"W{i} q={showNats w.queue} sp={showNats (sortNats w.spawning)} se={showNats (sortNats w.selecting)} " ++
   s!"{showAwaitBook w} " ++
   s!"C=[{joinWith " " ((s.cmdQ i).map showCmd)}] E=[{joinWith " " ((s.evtQ i).map showEvt)}] " ++
@@ -114,9 +116,9 @@ def showPending (s : Sys) : String :=
         s!"{wr.1}:[{joinWith ";" rs}]")
       some s!"{a}:e{showNats (sortNats pa.expected)}:r[{joinWith " " resp}]"))
 
-def snapshot (s : Sys) : String :=
+def snapshot (s : Sys) (showUn : Bool := false) : String :=
   s!"now={s.now} fault={if s.fault then 1 else 0} next={s.env.nextPid} R=[{showRouter s}] PA=[{showPending s}] | " ++
-  joinWith " | " ((List.range s.n).map (showWorker s))
+  joinWith " | " ((List.range s.n).map (showWorker showUn s))
 
 def showPairs (xs : List (Pid × Msg)) : String :=
   joinWith " " (xs.map (fun rm => s!"{rm.2.src}>{rm.1}:{showMsg rm.2}"))
@@ -167,7 +169,7 @@ structure St where
 
 def stepOf (st : St) (s : Sys) (c : Choice) : St × String :=
   let s' := @sysStepWith st.cfg st.rules s c
-  ({ st with sys := some s' }, snapshot s')
+  ({ st with sys := some s' }, snapshot s' st.cfg.selectWaits)
 
 def step (st : St) (req : List Sx) : St × String :=
   match req with
@@ -175,10 +177,12 @@ def step (st : St) (req : List Sx) : St × String :=
     match n.asNat, r.asNat, scripts.mapM parseScript with
     | some n, some r, some prog =>
       let s := Sys.init n prog r
-      ({ st with sys := some s }, snapshot s)
+      ({ st with sys := some s }, snapshot s st.cfg.selectWaits)
     | _, _, _ => (st, "bad-request")
   | [.list [.atom "cfg", .atom "exit-reports", .atom "on"]] => ({ st with cfg := { st.cfg with exitReports := true } }, "ok")
   | [.list [.atom "cfg", .atom "exit-reports", .atom "off"]] => ({ st with cfg := { st.cfg with exitReports := false } }, "ok")
+  | [.list [.atom "cfg", .atom "select-waits", .atom "on"]] => ({ st with cfg := { st.cfg with selectWaits := true } }, "ok")
+  | [.list [.atom "cfg", .atom "select-waits", .atom "off"]] => ({ st with cfg := { st.cfg with selectWaits := false } }, "ok")
   | [.list [.atom "mode", .atom "current"]] => ({ st with rules := Rules.current }, "ok")
   | [.list [.atom "mode", .atom "replace-answers"]] => ({ st with rules := Rules.replaceAnswers }, "ok")
   | [.list [.atom "mode", .atom "mark-active-on-empty"]] => ({ st with rules := Rules.markActiveOnEmpty }, "ok")
